@@ -47,7 +47,13 @@ class Fn:
         self.enum = enum_members
         self.methods = methods          # name -> (param names, return type) of already translated methods
         self.env = {}
+        self.rename = {}
         self.pre = []
+
+    def self_attr(self, attr):
+        if attr not in SELF_ATTRS:
+            raise TranslateError("unknown attribute self.%s" % attr)
+        return "(cfg_%s self)" % attr, SELF_ATTRS[attr]
 
     # -------------------------------------------------------------- expressions
     def expr(self, n):
@@ -59,11 +65,9 @@ class Fn:
         if isinstance(n, ast.Name):
             if n.id not in self.env:
                 raise TranslateError("unbound name %s" % n.id)
-            return n.id, self.env[n.id]
+            return self.rename.get(n.id, n.id), self.env[n.id]
         if isinstance(n, ast.Attribute) and isinstance(n.value, ast.Name) and n.value.id == "self":
-            if n.attr not in SELF_ATTRS:
-                raise TranslateError("unknown attribute self.%s" % n.attr)
-            return "(cfg_%s self)" % n.attr, SELF_ATTRS[n.attr]
+            return self.self_attr(n.attr)
         if isinstance(n, ast.BinOp):
             if isinstance(n.op, ast.Div):
                 # x / scipy.linalg.norm(x)
@@ -94,7 +98,7 @@ class Fn:
             raise TranslateError("comparison of %s with %s" % (lt, rt))
         if isinstance(n, ast.IfExp):
             c, ct = self.expr(n.test)
-            if ct != B or not isinstance(n.test, ast.Name):
+            if ct != B or not isinstance(n.test, (ast.Name, ast.Attribute)):
                 raise TranslateError("conditional expression test %s" % ast.unparse(n.test))
             a, at = self.expr(n.body)
             b, bt = self.expr(n.orelse)
@@ -311,11 +315,418 @@ def translate(src):
     return "\n".join(out), info
 
 
+# =====================================================================================================
+# Part 2: the sweeps.  mps/mp.py: iter_idx_list, compress (loop header, kept-count selection incl. the
+# temp_m_trunc branch), _update_ms (which bond receives the kept count), bond_dims convention;
+# utils/configs.py: bonddim_should_set, bond_dim_max_value; tn/tree.py: TTNS.compress, compress_node
+# (kept-count selection, which bond), compress_recursion (traversal).
+# =====================================================================================================
+OPTZ, TEMP = "option Z", "temp_arg"
+ISINSTANCE_SEQ = "isinstance(temp_m_trunc, (list, tuple, np.ndarray))"
+
+
+class SweepFn(Fn):
+    """expressions/statements of the MatrixProduct / TTNS methods; `self.x` are plain variables"""
+
+    def __init__(self, attrs):
+        super().__init__([], {})
+        self.attrs = attrs                     # attr -> (coq name, type)
+        self.temp_kind = None                  # None | "none" | "int" | "list"  (static knowledge about temp_m_trunc)
+
+    def self_attr(self, attr):
+        if attr not in self.attrs:
+            raise TranslateError("unknown attribute self.%s" % attr)
+        return self.attrs[attr]
+
+    def expr(self, n):
+        if isinstance(n, ast.Constant) and isinstance(n.value, bool):
+            return ("true" if n.value else "false"), B
+        if isinstance(n, ast.UnaryOp) and isinstance(n.op, ast.USub) and isinstance(n.operand, ast.Constant) \
+                and isinstance(n.operand.value, int) and not isinstance(n.operand.value, bool):
+            return "(-%d)" % n.operand.value, Z
+        if isinstance(n, ast.Name) and n.id == "temp_m_trunc":
+            if self.temp_kind == "int":
+                return "temp_i", Z
+            if self.temp_kind == "list":
+                return "temp_l", LZ
+            raise TranslateError("temp_m_trunc used where it may be None")
+        if isinstance(n, ast.Call) and ast.unparse(n.func) == "self.compress_config.compute_m_trunc":
+            args = list(n.args)
+            kw = {k.arg: k.value for k in n.keywords}
+            if len(args) == 2 and set(kw) == {"left"}:
+                args.append(kw["left"])
+            elif not (len(args) == 3 and not kw):
+                raise TranslateError("call %s" % ast.unparse(n))
+            tr = [self.expr(a) for a in args]
+            if [t for _, t in tr] != [VQ, Z, B]:
+                raise TranslateError("argument types of %s" % ast.unparse(n))
+            return "(compute_m_trunc cc %s %s %s)" % tuple(t for t, _ in tr), Z
+        if isinstance(n, ast.Call) and ast.unparse(n.func) == "range" and not n.keywords:
+            tr = [self.expr(a) for a in n.args]
+            if len(tr) == 2 and [t for _, t in tr] == [Z, Z]:
+                return "(py_range %s %s)" % (tr[0][0], tr[1][0]), LZ
+            if len(tr) == 3 and [t for _, t in tr] == [Z, Z, Z] and tr[2][0] == "(-1)":
+                return "(py_range_down %s %s)" % (tr[0][0], tr[1][0]), LZ
+            raise TranslateError("range call %s" % ast.unparse(n))
+        return super().expr(n)
+
+    def block(self, stmts):
+        """statement list -> (term, type); `if` duplicates the continuation into both branches"""
+        if not stmts:
+            raise TranslateError("block falls off the end")
+        s, rest = stmts[0], list(stmts[1:])
+        if isinstance(s, ast.Return):
+            if rest:
+                raise TranslateError("statements after return")
+            return self.expr(s.value)
+        if isinstance(s, ast.Assign) and len(s.targets) == 1 and isinstance(s.targets[0], ast.Name):
+            e, t = self.expr(s.value)
+            name = s.targets[0].id
+            saved = dict(self.env)
+            self.env[name] = t
+            b, bt = self.block(rest)
+            self.env = saved
+            return "(let %s := %s in %s)" % (name, e, b), bt
+        if isinstance(s, ast.If):
+            test = ast.unparse(s.test)
+            # static resolution of the kind of temp_m_trunc
+            if test == "temp_m_trunc is None":
+                if self.temp_kind is not None:
+                    raise TranslateError("nested test of temp_m_trunc")
+                arms = []
+                for kind, pat, branch in (("none", "TNone", s.body), ("int", "TInt temp_i", s.orelse), ("list", "TList temp_l", s.orelse)):
+                    self.temp_kind = kind
+                    b, bt = self.block(list(branch) + rest)
+                    arms.append((pat, b, bt))
+                self.temp_kind = None
+                if len({bt for _, _, bt in arms}) != 1:
+                    raise TranslateError("branches of different type")
+                return "match temp_m_trunc with\n" + "".join("  | %s => %s\n" % (p, b) for p, b, _ in arms) + "  end", arms[0][2]
+            if test == ISINSTANCE_SEQ:
+                if self.temp_kind not in ("int", "list"):
+                    raise TranslateError("isinstance test outside the `temp_m_trunc is not None` branch")
+                return self.block(list(s.body if self.temp_kind == "list" else s.orelse) + rest)
+            if test.startswith("isinstance("):
+                raise TranslateError("isinstance test %s" % test)
+            # option tests
+            m = None
+            if isinstance(s.test, ast.Compare) and len(s.test.ops) == 1 and isinstance(s.test.left, ast.Name) \
+                    and isinstance(s.test.comparators[0], ast.Constant) and s.test.comparators[0].value is None \
+                    and self.env.get(s.test.left.id) == OPTZ:
+                name = s.test.left.id
+                some, none = (s.body, s.orelse) if isinstance(s.test.ops[0], ast.IsNot) else (s.orelse, s.body)
+                if not isinstance(s.test.ops[0], (ast.IsNot, ast.Is)):
+                    raise TranslateError("option test %s" % test)
+                saved = dict(self.env)
+                self.env[name] = Z
+                a, at = self.block(list(some) + rest)
+                self.env = saved
+                b, bt = self.block(list(none) + rest)
+                if at != bt:
+                    raise TranslateError("branches of different type")
+                return "(match %s with Some %s => %s | None => %s end)" % (name, name, a, b), at
+            c, ct = self.expr(s.test)
+            if ct != B:
+                raise TranslateError("if-test %s" % test)
+            a, at = self.block(list(s.body) + rest)
+            b, bt = self.block(list(s.orelse) + rest)
+            if at != bt:
+                raise TranslateError("branches of different type")
+            return "(if %s then %s else %s)" % (c, a, b), at
+        raise TranslateError("statement %s: %s" % (type(s).__name__, ast.unparse(s)[:80]))
+
+
+def find_class(tree, name):
+    for node in tree.body:
+        if isinstance(node, ast.ClassDef) and node.name == name:
+            return node
+    raise TranslateError("class %s not found" % name)
+
+
+def find_def(body, name):
+    fs = [f for f in body if isinstance(f, ast.FunctionDef) and f.name == name]
+    if len(fs) != 1:
+        raise TranslateError("function %s not found exactly once" % name)
+    return fs[0]
+
+
+def strip_doc(stmts):
+    return [x for x in stmts if not (isinstance(x, ast.Expr) and isinstance(x.value, ast.Constant) and isinstance(x.value.value, str))]
+
+
+def params(f):
+    a = f.args
+    if a.vararg or a.kwarg or a.kwonlyargs or a.posonlyargs:
+        raise TranslateError("signature of %s" % f.name)
+    return [x.arg for x in a.args], [ast.unparse(d) for d in a.defaults]
+
+
+def comment(src):
+    return "(* %s\n*)" % src.replace("(*", "( *").replace("*)", "* )")
+
+
+def m_trunc_definition(name, stmt, sigma_name, extra_params, attrs):
+    """the `if temp_m_trunc is None: ... else: ...` statement -> Definition returning m_trunc"""
+    if not (isinstance(stmt, ast.If) and ast.unparse(stmt.test) == "temp_m_trunc is None"):
+        raise TranslateError("kept-count selection of %s changed shape: %s" % (name, ast.unparse(stmt)[:100]))
+    fn = SweepFn(attrs)
+    fn.env = {sigma_name: VQ, "idx": Z}
+    fn.rename = {sigma_name: "sigma"}
+    term, ty = fn.block([stmt, ast.Return(value=ast.Name(id="m_trunc", ctx=ast.Load()))])
+    if ty != Z:
+        raise TranslateError("m_trunc of %s is not an integer" % name)
+    return "Definition %s (cc : config) %s(temp_m_trunc : temp_arg) (sigma : list Q) (idx : Z) : Z :=\n  %s.\n" % (
+        name, extra_params, term.replace("\n", "\n  "))
+
+
+def translate_sweeps(repo):
+    out = []
+    info = {}
+    with open(os.path.join(repo, "renormalizer", "utils", "configs.py")) as f:
+        cfg_tree = ast.parse(f.read())
+    with open(os.path.join(repo, "renormalizer", "mps", "mp.py")) as f:
+        mp_tree = ast.parse(f.read())
+    with open(os.path.join(repo, "renormalizer", "tn", "tree.py")) as f:
+        tn_tree = ast.parse(f.read())
+    out.append("\n(* ============================ Part 2: sweeps (mps/mp.py, tn/tree.py, utils/configs.py) ============================ *)")
+    # ---- configs: bonddim_should_set, bond_dim_max_value
+    cc = find_class(cfg_tree, "CompressConfig")
+    bs = find_def(cc.body, "bonddim_should_set")
+    want = "return self.criteria is not CompressCriteria.threshold and self.max_dims is None"
+    body = strip_doc(bs.body)
+    if len(body) != 1 or ast.unparse(body[0]) != want or [ast.unparse(d) for d in bs.decorator_list] != ["property"]:
+        raise TranslateError("bonddim_should_set changed: %s" % ast.unparse(bs))
+    out.append(comment(ast.unparse(bs)))
+    out.append("Definition bonddim_should_set (crit : criteria) (old : option (list Z)) : bool :=\n"
+               "  negb (match crit with Threshold => true | _ => false end) && is_none old.\n")
+    init = find_def(cc.body, "__init__")
+    assigns = [ast.unparse(x) for x in ast.walk(init) if isinstance(x, ast.Assign) and ast.unparse(x.targets[0]) == "self.bond_dim_max_value"]
+    if not assigns or assigns[0] != "self.bond_dim_max_value = max_bonddim":
+        raise TranslateError("bond_dim_max_value is not initialised from max_bonddim: %s" % assigns)
+    mdinit = [ast.unparse(x) for x in init.body if isinstance(x, (ast.Assign, ast.AnnAssign)) and ast.unparse(x.targets[0] if isinstance(x, ast.Assign) else x.target) == "self.max_dims"]
+    if mdinit != ["self.max_dims: np.ndarray = None"]:
+        raise TranslateError("CompressConfig.__init__ sets max_dims: %s" % mdinit)
+    out.append("(* __init__: self.bond_dim_max_value = max_bonddim ; self.max_dims = None ; compress(): set_bonddim(length) when bonddim_should_set *)\n"
+               "Definition effective_max_dims (crit : criteria) (old : option (list Z)) (max_bonddim : Z) (length : Z) : list Z :=\n"
+               "  if bonddim_should_set crit old then set_bonddim old max_bonddim (Z.to_nat length)\n"
+               "  else match old with Some md => md | None => [] end.\n")
+    # ---- MatrixProduct
+    mp = find_class(mp_tree, "MatrixProduct")
+    attrs = {"to_right": ("to_right", B), "site_num": ("site_num", Z), "qnidx": ("qnidx", Z)}
+    it = find_def(mp.body, "iter_idx_list")
+    names, defaults = params(it)
+    if names != ["self", "full", "stop_idx"] or defaults != ["None"]:
+        raise TranslateError("signature of iter_idx_list: %s %s" % (names, defaults))
+    fn = SweepFn(attrs)
+    fn.env = {"full": B, "stop_idx": OPTZ}
+    term, ty = fn.block(strip_doc(it.body))
+    if ty != LZ:
+        raise TranslateError("iter_idx_list does not return a range")
+    out.append(comment(ast.unparse(it)))
+    out.append("Definition mp_iter_idx_list (site_num qnidx : Z) (to_right : bool) (full : bool) (stop_idx : option Z) : list Z :=\n  %s.\n" % term)
+    # bond_dims convention: entry k is the FIRST virtual index of site k, plus the last index of the last site
+    bd = find_def(mp.body, "bond_dims")
+    bd_body = strip_doc(bd.body)
+    if not (len(bd_body) == 2 and ast.unparse(bd_body[0]) ==
+            "bond_dims = [mt.bond_dim[0] for mt in self] + [self[-1].bond_dim[-1]] if self.site_num else []"
+            and ast.unparse(bd_body[1]) == "return bond_dims"):
+        raise TranslateError("bond_dims changed: %s" % ast.unparse(bd))
+    # _update_ms: the kept count becomes the last index of site idx (to_right) or its first index
+    um = find_def(mp.body, "_update_ms")
+    um_names, _ = params(um)
+    if um_names != ["self", "idx", "u", "vt", "sigma", "qnlset", "qnrset", "m_trunc"]:
+        raise TranslateError("signature of _update_ms: %s" % um_names)
+    um_body = strip_doc(um.body)
+    texts = [ast.unparse(x) for x in um_body]
+    for need in ("u = u[:, :m_trunc]", "vt = vt[:m_trunc, :]", "self[idx] = ret_mpsi"):
+        if texts.count(need) != 1:
+            raise TranslateError("_update_ms: statement `%s` not found exactly once" % need)
+    if not (texts.index("u = u[:, :m_trunc]") < texts.index("self[idx] = ret_mpsi") and texts.index("vt = vt[:m_trunc, :]") < texts.index("self[idx] = ret_mpsi")):
+        raise TranslateError("_update_ms: statement order")
+    dir_ifs = [x for x in um_body if isinstance(x, ast.If) and ast.unparse(x.test) == "self.to_right"]
+    if len(dir_ifs) != 1:
+        raise TranslateError("_update_ms: direction test")
+    def ret_assign(stmts):
+        r = [ast.unparse(x) for x in stmts if isinstance(x, ast.Assign) and ast.unparse(x.targets[0]) == "ret_mpsi"]
+        if len(r) != 1:
+            raise TranslateError("_update_ms: ret_mpsi assignment")
+        return r[0]
+    right = ret_assign(dir_ifs[0].body)
+    left = ret_assign(dir_ifs[0].orelse)
+    if right != "ret_mpsi = u.reshape([u.shape[0] // self[idx].pdim_prod] + list(self[idx].pdim) + [m_trunc])":
+        raise TranslateError("_update_ms (to_right): %s" % right)
+    if left != "ret_mpsi = vt.reshape([m_trunc] + list(self[idx].pdim) + [vt.shape[1] // self[idx].pdim_prod])":
+        raise TranslateError("_update_ms (to left): %s" % left)
+    for x in um_body[texts.index("self[idx] = ret_mpsi") + 1:]:
+        raise TranslateError("_update_ms: statements after the site is stored")
+    out.append("(* _update_ms: u = u[:, :m_trunc]; vt = vt[:m_trunc, :]; to_right: site idx := u.reshape([...] + [m_trunc])  -- its LAST\n"
+               "   index, which is bond idx+1 in the bond_dims convention (entry k = first index of site k);\n"
+               "   otherwise site idx := vt.reshape([m_trunc] + [...]) -- its FIRST index, bond idx *)\n"
+               "Definition update_ms_bond (idx : Z) (to_right : bool) : Z := if to_right then idx + 1 else idx.\n")
+    # compress
+    cp = find_def(mp.body, "compress")
+    cp_names, cp_defaults = params(cp)
+    if cp_names != ["self", "temp_m_trunc", "ret_s"] or cp_defaults != ["None", "False"]:
+        raise TranslateError("signature of compress: %s" % cp_names)
+    cbody = strip_doc(cp.body)
+    first = cbody[0]
+    if not (isinstance(first, ast.If) and ast.unparse(first.test) == "self.to_right" and len(first.body) == 1 and len(first.orelse) == 1
+            and isinstance(first.body[0], ast.Assert) and isinstance(first.orelse[0], ast.Assert)):
+        raise TranslateError("compress: entry asserts changed")
+    fn = SweepFn(attrs)
+    vals = []
+    for a in (first.body[0], first.orelse[0]):
+        t = a.test
+        if not (isinstance(t, ast.Compare) and len(t.ops) == 1 and isinstance(t.ops[0], ast.Eq) and ast.unparse(t.left) == "self.qnidx"):
+            raise TranslateError("compress: entry assert %s" % ast.unparse(t))
+        e, ty = fn.expr(t.comparators[0])
+        if ty != Z:
+            raise TranslateError("compress: entry assert type")
+        vals.append(e)
+    out.append(comment("compress(): " + ast.unparse(first)))
+    out.append("Definition compress_qnidx (site_num : Z) (to_right : bool) : Z := if to_right then %s else %s.\n" % (vals[0], vals[1]))
+    sb = [x for x in cbody if isinstance(x, ast.If) and ast.unparse(x.test) == "self.compress_config.bonddim_should_set"]
+    if len(sb) != 1 or [ast.unparse(x) for x in sb[0].body] != ["self.compress_config.set_bonddim(len(self) + 1)"] or sb[0].orelse:
+        raise TranslateError("compress: set_bonddim call changed")
+    out.append("(* compress(): if self.compress_config.bonddim_should_set: self.compress_config.set_bonddim(len(self) + 1) *)\n"
+               "Definition compress_max_dims (crit : criteria) (old : option (list Z)) (max_bonddim : Z) (site_num : Z) : list Z :=\n"
+               "  effective_max_dims crit old max_bonddim (site_num + 1).\n")
+    loops = [x for x in cbody if isinstance(x, ast.For)]
+    if len(loops) != 1:
+        raise TranslateError("compress: expected exactly one loop")
+    lp = loops[0]
+    if not (isinstance(lp.target, ast.Name) and lp.target.id == "idx" and ast.unparse(lp.iter) == "self.iter_idx_list(full=False)" and not lp.orelse):
+        raise TranslateError("compress: loop header %s" % ast.unparse(lp.iter))
+    if cbody.index(lp) < cbody.index(sb[0]):
+        raise TranslateError("compress: set_bonddim after the loop")
+    lb = strip_doc(lp.body)
+    ltxt = [ast.unparse(x) for x in lb]
+    allowed_prefix = ["mt: Matrix = self[idx]", "qnbigl, qnbigr, _ = self._get_big_qn([idx])",
+                      "u, sigma, qnlset, v, sigma, qnrset = svd_qn.svd_qn(mt.array, qnbigl, qnbigr, self.qntot, system=system, full_matrices=False)",
+                      "vt = v.T", "s_list.append(sigma)"]
+    if ltxt[:5] != allowed_prefix or len(lb) != 7:
+        raise TranslateError("compress: loop body changed: %s" % ltxt)
+    if ltxt[6] != "self._update_ms(idx, u, vt, sigma, qnlset, qnrset, m_trunc)":
+        raise TranslateError("compress: _update_ms call changed: %s" % ltxt[6])
+    out.append(comment("compress(), loop body:\n" + ast.unparse(lb[5])))
+    out.append(m_trunc_definition("compress_m_trunc", lb[5], "sigma", "(to_right : bool) ", attrs))
+    out.append("(* for idx in self.iter_idx_list(full=False): ... self._update_ms(idx, u, vt, sigma, qnlset, qnrset, m_trunc) *)\n"
+               "Definition compress_idx_list (site_num : Z) (to_right : bool) : list Z :=\n"
+               "  mp_iter_idx_list site_num (compress_qnidx site_num to_right) to_right false None.\n"
+               "(* dimension received by the cut bond: the columns of u[:, :m_trunc] (slicing clips at len sigma) *)\n"
+               "Definition compress_step_dim (cc : config) (to_right : bool) (temp_m_trunc : temp_arg) (sigma : list Q) (idx : Z) : Z :=\n"
+               "  Z.min (compress_m_trunc cc to_right temp_m_trunc sigma idx) (py_len sigma).\n"
+               "Definition compress_dims (cc : config) (site_num : Z) (to_right : bool) (temp_m_trunc : temp_arg)\n"
+               "           (spectrum : Z -> list Q) (dims : list Z) : list Z :=\n"
+               "  fold_left (fun d idx => set_nth (Z.to_nat (update_ms_bond idx to_right))\n"
+               "                                  (compress_step_dim cc to_right temp_m_trunc (spectrum idx) idx) d)\n"
+               "            (compress_idx_list site_num to_right) dims.\n"
+               "(* (idx, bond cut, m_trunc) per step, in order *)\n"
+               "Definition compress_trace (cc : config) (site_num : Z) (to_right : bool) (temp_m_trunc : temp_arg)\n"
+               "           (spectrum : Z -> list Q) : list Z :=\n"
+               "  flat_map (fun idx => [idx; update_ms_bond idx to_right; compress_m_trunc cc to_right temp_m_trunc (spectrum idx) idx])\n"
+               "           (compress_idx_list site_num to_right).\n")
+    # ---- TTNS
+    ttns = find_class(tn_tree, "TTNS")
+    cn = find_def(ttns.body, "compress_node")
+    cn_names, _ = params(cn)
+    if cn_names != ["self", "node", "ichild", "temp_m_trunc", "cano_child"]:
+        raise TranslateError("signature of compress_node: %s" % cn_names)
+    nb = strip_doc(cn.body)
+    ntxt = [ast.unparse(x) for x in nb]
+    want_seq = ["qnbigl, qnbigr, tensor, shape = moveaxis(self, node, ichild)",
+                "u, s, qnl, v, s, qnr = svd_qn(tensor, qnbigl, qnbigr, self.qntot, full_matrices=False)",
+                "idx = self.node_idx[node.children[ichild]]", None, "orig_s = s.copy()",
+                "u, s, v, qnl, qnr = truncate_tensors(u, s, v, qnl, qnr, m_trunc)", None,
+                "shape[-1] = min(m_trunc, u.shape[-1])", "node.tensor = np.moveaxis(u.reshape(shape), -1, ichild)",
+                "child = node.children[ichild]", "child.tensor = tensordot(child.tensor, v, axes=[-1, 0])", "child.qn = qnr", "return orig_s"]
+    if len(ntxt) != len(want_seq) or any(w is not None and w != t for w, t in zip(want_seq, ntxt)):
+        raise TranslateError("compress_node changed: %s" % ntxt)
+    tt = find_def(tn_tree.body, "truncate_tensors")
+    if [ast.unparse(x) for x in strip_doc(tt.body)] != ["u = u[:, :m]", "s = s[:m]", "v = v[:, :m]", "qnl = qnl[:m]", "qnr = qnr[:m]", "return (u, s, v, qnl, qnr)"]:
+        raise TranslateError("truncate_tensors changed")
+    out.append(comment("TTNS.compress_node: idx = self.node_idx[node.children[ichild]]\n" + ast.unparse(nb[3])))
+    out.append(m_trunc_definition("compress_node_m_trunc", nb[3], "s", "", {}))
+    out.append("(* shape[-1] = min(m_trunc, u.shape[-1]); node.tensor = np.moveaxis(u.reshape(shape), -1, ichild): the bond\n"
+               "   between node and its ichild-th child, i.e. the bond above the node whose index is idx *)\n"
+               "Definition compress_node_dim (cc : config) (temp_m_trunc : temp_arg) (sigma : list Q) (idx : Z) : Z :=\n"
+               "  Z.min (compress_node_m_trunc cc temp_m_trunc sigma idx) (py_len sigma).\n")
+    # compress_recursion: statement-by-statement event translation
+    cr = find_def(tn_tree.body, "compress_recursion")
+    cr_names, _ = params(cr)
+    if cr_names != ["snode", "ttns", "s_dict", "temp_m_trunc"]:
+        raise TranslateError("signature of compress_recursion: %s" % cr_names)
+    rb = strip_doc(cr.body)
+    if not (len(rb) == 2 and isinstance(rb[0], ast.Assert) and ast.unparse(rb[0].test) == "snode.children" and isinstance(rb[1], ast.For)
+            and ast.unparse(rb[1].target) == "(ichild, child)" and ast.unparse(rb[1].iter) == "enumerate(snode.children)" and not rb[1].orelse):
+        raise TranslateError("compress_recursion: header changed")
+
+    def events(stmts, env):
+        parts = []
+        lets = []
+        for x in stmts:
+            t = ast.unparse(x)
+            if t == "cano_child = bool(child.children)":
+                lets.append("let cano_child := negb (is_nil (tchildren c)) in")
+                env = env | {"cano_child"}
+            elif t == "s = ttns.compress_node(snode, ichild, temp_m_trunc, cano_child)":
+                if "cano_child" not in env:
+                    raise TranslateError("compress_recursion: cano_child used before assignment")
+                parts.append("[EvTrunc p (tid c) cano_child]")
+            elif t == "s_dict[child] = s":
+                parts.append("[]")
+            elif t == "compress_recursion(child, ttns, s_dict, temp_m_trunc)":
+                parts.append("tree_compress_events c")
+            elif t == "ttns.push_cano_to_parent(child)":
+                parts.append("[EvPush (tid c)]")
+            elif isinstance(x, ast.If) and ast.unparse(x.test) == "cano_child" and not x.orelse:
+                if "cano_child" not in env:
+                    raise TranslateError("compress_recursion: cano_child used before assignment")
+                parts.append("(if cano_child then %s else [])" % events(x.body, env))
+            else:
+                raise TranslateError("compress_recursion: statement %s" % t[:100])
+            if lets and len(lets) > 1:
+                raise TranslateError("compress_recursion: more than one binding")
+        body = " ++ ".join(parts) if parts else "[]"
+        return "(%s %s)" % (lets[0], body) if lets else "(%s)" % body
+
+    ev_term = events(strip_doc(rb[1].body), frozenset())
+    out.append(comment(ast.unparse(cr)))
+    out.append("Fixpoint tree_compress_events (t : tree) : list event :=\n  match t with\n  | Node p cs =>\n"
+               "    (fix over (l : list tree) : list event :=\n       match l with\n       | [] => []\n       | c :: r =>\n"
+               "         %s ++ over r\n       end) cs\n  end.\n" % ev_term)
+    tc = find_def(ttns.body, "compress")
+    tb = strip_doc(tc.body)
+    ttxt = [ast.unparse(x) for x in tb]
+    if ttxt[0] != "if self.compress_config.bonddim_should_set:\n    self.compress_config.set_bonddim(len(self.node_list) + 1)" \
+            or ttxt[2] != "compress_recursion(self.root, self, s_dict, temp_m_trunc)":
+        raise TranslateError("TTNS.compress changed: %s" % ttxt[:3])
+    out.append("(* TTNS.compress: set_bonddim(len(self.node_list) + 1); compress_recursion(self.root, self, s_dict, temp_m_trunc) *)\n"
+               "Definition tree_max_dims (crit : criteria) (old : option (list Z)) (max_bonddim : Z) (n_nodes : Z) : list Z :=\n"
+               "  effective_max_dims crit old max_bonddim (n_nodes + 1).\n"
+               "Definition tree_compress_dims (cc : config) (temp_m_trunc : temp_arg) (spectrum : nat -> list Q) (qr_dim : nat -> Z -> Z)\n"
+               "           (t : tree) (dims : nat -> Z) : nat -> Z :=\n"
+               "  fold_left (fun d e => match e with\n"
+               "                        | EvTrunc _ c _ => upd d c (compress_node_dim cc temp_m_trunc (spectrum c) (Z.of_nat c))\n"
+               "                        | EvPush c => upd d c (qr_dim c (d c))\n"
+               "                        end) (tree_compress_events t) dims.\n"
+               "(* (parent, child, m_trunc) per truncation, in order *)\n"
+               "Definition tree_compress_trace (cc : config) (temp_m_trunc : temp_arg) (spectrum : nat -> list Q) (t : tree) : list Z :=\n"
+               "  flat_map (fun e => match e with\n"
+               "                     | EvTrunc p c _ => [Z.of_nat p; Z.of_nat c; compress_node_m_trunc cc temp_m_trunc (spectrum c) (Z.of_nat c)]\n"
+               "                     | EvPush c => [(-1); Z.of_nat c; (-1)]\n"
+               "                     end) (tree_compress_events t).\n")
+    return "\n".join(out), info
+
+
 def main(repo):
     path = os.path.join(repo, "renormalizer", "utils", "configs.py")
     with open(path) as f:
         src = f.read()
-    return translate(src)
+    text, info = translate(src)
+    text2, info2 = translate_sweeps(repo)
+    info.update(info2)
+    return text + "\n" + text2, info
 
 
 if __name__ == "__main__":
